@@ -124,6 +124,7 @@ def main(argv=None):
     ap.add_argument('--replay')
     ap.add_argument('--jobs', type=int, default=int(os.environ.get('MPV_JOBS', '16')))
     ap.add_argument('--only', default=None, help='substring filter on job configs (debugging)')
+    ap.add_argument('--job', default=None, help='run exactly this job configuration (JSON; debugging, never writes evidence)')
     ap.add_argument('--no-evidence', action='store_true')
     a = ap.parse_args(argv)
     prop = a.prop
@@ -160,6 +161,9 @@ def main(argv=None):
     jobs = r['jobs']
     if a.only:
         jobs = [j for j in jobs if a.only in json.dumps(j, default=str)]
+    if a.job:
+        jobs = [json.loads(a.job)]
+        a.only = a.only or 'job'
     d = ctl.ask({'op': 'describe', 'tier': tier}, 120)
     describe = d.get('describe', {}) if d.get('ok') else {}
     ctl.close()
